@@ -68,6 +68,7 @@ func runC03(c *Ctx) {
 	ruleSwapControlEquivalent(c)
 	dispatchOnce(c)
 	adaptersCallReceiver(c)
+	rootOnce(c)
 	c03NoGlobalRuleMutation(c, "C03")
 	// what a request executes is what *it* named: no member of a pooled request object survives into the next request (C07/pool-reset)
 	c07PoolReset(c)
